@@ -34,8 +34,9 @@ type Exec struct {
 	Transport string   `json:"transport"` // share (T1) | gob (T2) | files (T3, vet only)
 	Roots     []string `json:"roots"`     // import paths named on the command line, in order
 	Sched     sched.Config
-	Rerun     int  `json:"rerun"` // vet: index of a unit executed twice (cache miss), -1 = none
-	Fork      bool `json:"fork"`
+	ParseSeed uint64 `json:"parse_seed,omitempty"` // checker: seeded parse order of the files (0 = listed order)
+	Rerun     int    `json:"rerun"`                // vet: index of a unit executed twice (cache miss), -1 = none
+	Fork      bool   `json:"fork"`
 }
 
 // ApplyConfig sets gogreement's flags the way the command line would and
@@ -150,6 +151,9 @@ func RunChecker(l *Loaded, ex *Exec, ch sched.Chooser) (*Outcome, *ExecStats, er
 		rootPkgs = append(rootPkgs, l.Plain[i])
 		if l.Test[i] != nil {
 			rootPkgs = append(rootPkgs, l.Test[i])
+		}
+		if l.XTest[i] != nil {
+			rootPkgs = append(rootPkgs, l.XTest[i])
 		}
 	}
 	for _, a := range analyzers {
@@ -337,20 +341,10 @@ func execAction(l *Loaded, act *action, gobTransport bool, st *ExecStats) {
 		}
 		b = append([]byte(nil), b...)
 		if f, ok := l.ReadFaults[name]; ok {
-			switch {
-			case f == "eio":
+			var err error
+			if b, err = ApplyReadFault(f, name, b); err != nil {
 				l.logRead(act.String(), name, nil, true)
-				return nil, fmt.Errorf("read %s: input/output error", name)
-			case f == "empty":
-				b = nil
-			case strings.HasPrefix(f, "short:"):
-				n := 0
-				fmt.Sscanf(f, "short:%d", &n)
-				if n < len(b) {
-					b = b[:n]
-				}
-			case strings.HasPrefix(f, "edited:"):
-				b = []byte(f[len("edited:"):])
+				return nil, err
 			}
 		}
 		if l.ReadFaults != nil {
